@@ -76,9 +76,32 @@ func (e *Env) eval(x Expr) (Val, error) {
 		return o.eval(x.X)
 	case *EUnary:
 		if x.Op == "&" {
+			if sl, ok := x.X.(*ESel); ok {
+				// address of a struct-typed field of an object: the derived reference used for that sub-object
+				base, err := e.eval(sl.X)
+				if err != nil {
+					return Val{}, err
+				}
+				if base.Ty == nil {
+					return Val{}, fmt.Errorf("&%s: untyped base", x.X)
+				}
+				obj, path, _ := types.LookupFieldOrMethod(base.Ty, true, e.pkgOrNil(base.Ty), sl.Name)
+				fv, ok := obj.(*types.Var)
+				if !ok || !fv.IsField() {
+					return Val{}, fmt.Errorf("no field %s", sl.Name)
+				}
+				cur := base
+				for k, idx := range path {
+					T := derefType(cur.Ty)
+					if k == len(path)-1 {
+						return Val{T: g.subRef(T, structOf(T).Field(idx).Name(), cur.T), S: SRef, Ty: types.NewPointer(fv.Type())}, nil
+					}
+					cur = g.loadField(e.heap, T, cur.T, idx)
+				}
+			}
 			id, ok := x.X.(*EIdent)
 			if !ok {
-				return Val{}, fmt.Errorf("& needs a local variable name")
+				return Val{}, fmt.Errorf("& needs a local variable name or a field")
 			}
 			nv, ok := g.lookupLocal(id.Name, e.block, e.atEnd)
 			if !ok || !nv.isAddr {
